@@ -1,4 +1,63 @@
-META = dict(level='proof', level_text='wip', level_note='wip', trusted_base=[], assumptions=[], not_covered=[])
+# C08 -- reductions and accumulations fold exactly the addressed elements, in order (index functions + the fold loops)
+META = dict(
+    level='proof',
+    level_text='Result shape, element selection and fold order of reductions are proved at the level of the index functions and of the fold '
+               'loops: index::remove_dims (axis int / two axes / None; keepdims True, False and run-time) equals the NumPy result shape; '
+               'index::reduction_slices (axis int with keepdims True / False / run-time, axis list with run-time keepdims) selects, per source '
+               'axis, the full range on reduced axes and the single position taken from the result index on the others; both overloads of '
+               'view::reducer_t::operator() compute the left fold in increasing index order for an abstract (uninterpreted) binary op. '
+               'Shapes are utl::static_vector<size_t,8> of symbolic rank 0..8 and arbitrary 64-bit extents; every code loop is closed by a loop '
+               'contract, all obligations are discharged bit-precisely by CBMC (dfcc) together with bounds / overflow / conversion checks '
+               'and the dereference of the optional returned by normalize_axis.',
+    level_note='Trusted: clang AST, cxx2c rendering (cross-checked by translation validation on every run), CBMC, the C models of '
+               'std::optional / std::array. The view glue between the pieces (apply_slice, view::flatten, view::reduce dispatch, the slice loop '
+               'inside accumulate_t::operator()) is not under contract.',
+    trusted_base=[
+        'clang 14 front end (AST of the instantiated templates)', 'engine/cxx2c.py (C++ AST -> C rendering)',
+        'cbmc 6.11.0 / goto-instrument --dfcc (contract instrumentation, SAT back end)',
+        'C models of std::optional (dereference asserts has_value) and std::array in the generated prelude',
+        'C++ references are valid and parameters do not alias outputs (harness passes distinct objects)',
+    ],
+    assumptions=[
+        'precondition of remove_dims / reduction_slices: every axis lies in [-dim, dim) and, for a list of axes, the normalised axes are pairwise '
+        'distinct (NumPy raises AxisError / "duplicate value in axis"; the views hand the user\'s axis on unchecked -- view/ufunc.hpp: '
+        '"TODO: error handling for duplicate axis" -- and the property quantifies over subsets of axes)',
+        'precondition of reduction_slices: the result index has one entry per result axis (len = dim with keepdims, dim - #reduced without)',
+        'precondition of the fold without initial value: the operand is non-empty (NumPy: reduction of an empty operand without identity is an error)',
+        'remove_dims(shape, int, run-time bool): rank 8 with keepdims=true is excluded -- the library chooses the capacity-7 result vector for '
+        'a run-time keepdims, resize(8) is then silently ignored and the 8th store is out of bounds (confirmed natively). No view reaches this '
+        'instantiation: view::reduce dispatches a run-time keepdims to the True / False instantiations, which are proved without exclusion',
+        'the abstract op is an uninterpreted function: pure (same arguments -> same result), otherwise unconstrained (not associative, not commutative)',
+        'ghost traces RED / KEPT / FT are functional definitions assumed in the precondition',
+        'configuration: -DNDEBUG, STL enabled, kind utl::static_vector<size_t,8> (rank 0..8 symbolic), fold operand utl::static_vector<long,8>',
+    ],
+    explanation='remove_dims: with keepdims the rank is unchanged and exactly the reduced axes have extent 1; without, the surviving axes keep '
+                'their order (source axis g lands at position #{kept axes below g}) and the rank is dim - #axes. reduction_slices: for every source '
+                'axis g, reduced -> [0, shape[g]); kept -> [idx[r(g)], idx[r(g)]+1) with r(g) = g (keepdims) or #{kept axes below g}: exactly the source '
+                'elements whose non-reduced coordinates equal the result index. reducer_t: result == op(...op(op(x0,x1),x2)...,xn-1), resp. starting from '
+                'the initial value, for an uninterpreted op -- any change of order, operand position, start or end index changes the term.',
+    not_covered=[
+        'mean / var / stddev / vector_norm / trace compositions (mean_divisor, var) and the named wrappers sum / prod / amax / amin / cumsum / cumprod',
+        'dtype / result element type (a decltype fact)',
+        'accumulate: the prefix-range slice loop lives inside accumulate_t::operator() (no index function); instantiating the view is out of '
+        'reach of the translator (UNSUPPORTED: non-empty record constant fixed_shape_v). Its fold is the reducer_t loop proved here',
+        'the glue of reduce_t::operator(): apply_slice (C05), view::flatten in C order (C03 / C01), view::reduce dispatch incl. either for run-time keepdims',
+        'remove_dims with a run-time-length axis list (utl::static_vector<int,8>) or axis=None on bounded shapes: the library returns std::vector, '
+        'for which the translator has no model; list axes are covered for the fixed-length kind nmtools_array<int,2> and in reduction_slices',
+        'compile-time constant shapes / axes (type level)',
+    ],
+)
 UNITS = [
-    Unit('remove_dims.int_true', 'c08', 'verif_remove_dims_int_true', mode='bp', unwind=10),
+    Unit('remove_dims.int_true', 'c08', 'verif_remove_dims_int_true', mode='bp', unwind=10, clause='NumPy result shape, one axis, keepdims=True (as the views instantiate it): rank kept, reduced axis has extent 1'),
+    Unit('remove_dims.int_false', 'c08', 'verif_remove_dims_int_false', mode='bp', unwind=10, clause='NumPy result shape, one axis, keepdims=False: that axis removed, order of the others kept'),
+    Unit('remove_dims.int_bool', 'c08', 'verif_remove_dims_int_bool', mode='bp', unwind=10, clause='NumPy result shape, one axis, run-time keepdims (direct index-level call)'),
+    Unit('remove_dims.ax2_true', 'c08', 'verif_remove_dims_ax2_true', mode='bp', unwind=10, clause='NumPy result shape, several axes (positive or negative, any order), keepdims=True'),
+    Unit('remove_dims.ax2_false', 'c08', 'verif_remove_dims_ax2_false', mode='bp', unwind=10, clause='NumPy result shape, several axes, keepdims=False: those axes removed, order kept'),
+    Unit('remove_dims.none_true', 'c08', 'verif_remove_dims_none_true', mode='bp', unwind=10, clause='NumPy result shape, all axes (None), keepdims=True: all ones'),
+    Unit('reduction_slices.int', 'c08', 'verif_reduction_slices_int', mode='bp', unwind=10, clause='exactly the source elements whose non-reduced coordinates match the result index (one axis, run-time keepdims)'),
+    Unit('reduction_slices.int_true', 'c08', 'verif_reduction_slices_int_true', mode='bp', unwind=10, clause='the same, keepdims=True as reduce_t::operator() passes it'),
+    Unit('reduction_slices.int_false', 'c08', 'verif_reduction_slices_int_false', mode='bp', unwind=10, clause='the same, keepdims=False as reduce_t::operator() passes it'),
+    Unit('reduction_slices.axes', 'c08', 'verif_reduction_slices_axes', mode='bp', unwind=10, clause='exactly the source elements whose non-reduced coordinates match the result index (any list of valid axes, negative / unsorted included)'),
+    Unit('fold', 'c08', 'verif_fold', mode='bp', unwind=10, clause='left fold in increasing index order starting from the first element (no initial value); also the running fold of accumulate'),
+    Unit('fold_init', 'c08', 'verif_fold_init', mode='bp', unwind=10, clause='left fold in increasing index order starting from the initial value'),
 ]
